@@ -50,6 +50,12 @@ def configs(tier):
                     out.append(dict(kind="solve", shape=shape, form=f, backend=b))
         for shape in ([3], [2, 2], [3, 2], [2, 1, 2]):
             out.append(dict(kind="unique", shape=shape))
+        for shape in ([3], [2, 2], [3, 2], [2, 1, 2]):
+            for f in FORMS:
+                for b in BACKENDS:
+                    if f == "full" and b != "direct":
+                        continue
+                    out.append(dict(kind="first_reuse", shape=shape, form=f, backend=b))
     else:
         big = [[n] for n in range(2, 13)] + [list(s) for s in itertools.product(range(1, 8), repeat=2) if s[0] * s[1] >= 2] + [list(s) for s in itertools.product(range(1, 6), repeat=3) if int(np.prod(s)) >= 2]
         for shape in big:
@@ -62,6 +68,12 @@ def configs(tier):
                         out.append(dict(kind="solve", shape=shape, form=f, backend=b))
         for shape in ([3], [5], [2, 2], [3, 2], [3, 3], [2, 1, 2], [2, 2, 2]):
             out.append(dict(kind="unique", shape=shape))
+        for shape in small + [[4], [5], [4, 4]]:
+            for f in FORMS:
+                for b in BACKENDS:
+                    if (f == "full" and b != "direct") or (len(shape) == 3 and int(np.prod(shape)) > 8):
+                        continue
+                    out.append(dict(kind="first_reuse", shape=shape, form=f, backend=b))
     for f in FORMS + ["flux-reduced"]:
         out.append(dict(kind="names", form=f))
     return out
@@ -138,6 +150,19 @@ def body(cfg):
         return
     rhs = _rhs("b", nf, nc)
     del LOG[:]
+    if cfg["kind"] == "first_reuse":
+        # the very first solve of a fresh object already asks for solver reuse (set-up happens on demand),
+        # and the caller hands the SAME right-hand-side array to two successive solves
+        mine = rhs.copy()
+        sol, _ = w1.linear_solve(A, mine, reuse_solver=True)
+        a, b_, c_ = _residual_ok(A, sol, rhs, nf, nc)
+        S.claim("first_solve_with_reuse_flag_solves_the_system_it_was_given", S.and_(a, b_, c_))
+        S.claim("right_hand_side_array_of_the_caller_is_left_as_it_was", S.eq(mine, rhs))
+        sol_b, _ = w1.linear_solve(A, mine, reuse_solver=True)
+        a, b_, c_ = _residual_ok(A, sol_b, rhs, nf, nc)
+        S.claim("second_solve_with_the_same_array_solves_the_same_system", S.and_(a, b_, c_))
+        S.observe("solution", sol)
+        return
     sol, stats = w1.linear_solve(A, rhs.copy())
     S.observe("solution", sol)
     f_ok, m_ok, l_ok = _residual_ok(A, sol, rhs, nf, nc)
